@@ -5,6 +5,7 @@ import WgslVerif.Check.C20
 import WgslVerif.Check.All
 import WgslVerif.Check.C08
 import WgslVerif.Check.C09
+import WgslVerif.Check.Simple
 /-
 Driver: reads `(case …)` lines from stdin (written by harness `dump`), prints one line per
 (property, run):   V|<prop>|<case id>|<run#>|<corr>|<spec>|<tags>
@@ -16,7 +17,9 @@ open WgslVerif
 def registry : List (String × (Ctx → Run → Verdict)) :=
   [ ("C11", CheckC11.check), ("C03", CheckC03.check),
     ("C20", fun c r => CheckC20.check c r r.visits),
-    ("ALL", CheckAll.check), ("C08", CheckC08.check), ("C09", CheckC09.check) ]
+    ("ALL", CheckAll.check), ("C08", CheckC08.check), ("C09", CheckC09.check),
+    ("C04", CheckSimple.c04), ("C12", CheckSimple.c12), ("C13", CheckSimple.c13), ("C14", CheckSimple.c14),
+    ("C15", CheckSimple.c15) ]
 
 def decodeCase (s : Sexp) : Except String (Ctx × List Run) := do
   let fs ← match s with
